@@ -137,6 +137,52 @@ def inrepo(sid, checks, tier='quick'):
     return res
 
 
+def record(sid, checks):
+    """verify (or reuse .work/verify_<sid>.json), run the checks, write seeded/<sid>/meta.json"""
+    d = os.path.join(VERIF, 'seeded', sid)
+    vfile = os.path.join(VERIF, '.work', f'verify_{sid}.json')
+    ver = None
+    if os.path.exists(vfile):
+        try:
+            ver = json.load(open(vfile))
+        except Exception:
+            ver = None
+    if ver is None:
+        import io
+        import contextlib
+        buf = io.StringIO()
+        with contextlib.redirect_stdout(buf):
+            verify(d)
+        ver = json.loads(buf.getvalue())
+        with open(vfile, 'w') as f:
+            json.dump(ver, f, indent=1)
+    prop = sid.split('_')[0]
+    res = run(sid, checks or [prop])
+    notes = open(os.path.join(d, 'notes.md')).read() if os.path.exists(os.path.join(d, 'notes.md')) else ''
+    meta = dict(
+        id=sid, property=prop,
+        origin="written by an independent sub-agent that saw only the property text and a scratch worktree of /repo",
+        needs_to_manifest=notes.strip()[:1500],
+        confirmed=dict(
+            suite_with_change=ver.get('suite_with_change'), suite_ok=ver.get('suite_ok'),
+            demo_with_change_rc=ver['demo_with_change']['rc'], demo_without_change_rc=ver['demo_without_change']['rc'],
+            how="tools/seedtest.py verify: patch applied in a scratch worktree of /repo; baseline suite run there "
+                "(test_Turntable, which fails on the unmodified tree, deselected); demo.py run with and without the change"),
+        valid=ver.get('valid'),
+        checks_run={c: dict(cmd=f"PYINS_REPO=<worktree with patch> ./check {c} --tier quick (scratch copy of /verif)",
+                            exit=v['exit'], lines=[l.split(' replay=')[0] + (' ' + l.split()[-1] if l.endswith('no-failing-input-found') else '')
+                                                   for l in v['lines']][:6],
+                            broken=[b[:200] for b in v['broken']][:4],
+                            replay_excerpt=v.get('replay_excerpt'))
+                    for c, v in res.items()},
+        detected=any(v['exit'] != 0 for v in res.values()),
+        detected_with_concrete_replay=any(v['exit'] != 0 and any('no-failing-input-found' not in l and l.startswith('VIOLATION')
+                                                                 for l in v['lines']) for v in res.values()))
+    with open(os.path.join(d, 'meta.json'), 'w') as f:
+        json.dump(meta, f, indent=1)
+    print(json.dumps({k: meta[k] for k in ('id', 'valid', 'detected', 'detected_with_concrete_replay')}))
+
+
 if __name__ == '__main__':
     cmd = sys.argv[1]
     if cmd == 'verify':
@@ -144,5 +190,7 @@ if __name__ == '__main__':
     elif cmd == 'run':
         r = run(sys.argv[2], sys.argv[3:])
         sys.exit(0)
+    elif cmd == 'record':
+        record(sys.argv[2], sys.argv[3:])
     elif cmd == 'inrepo':
         inrepo(sys.argv[2], sys.argv[3:])
